@@ -61,5 +61,17 @@ def check(tier, seed):
         if len(run.violations) == before:
             run.cov["refuted_known"] += 1
 
+    # the slot statements above are read as `node.s = map_and_filter(visit, node.s)` with map_and_filter = py_gql._utils.map_and_filter (functional: builds
+    # a new list from the visited members, dropping None): the name must be bound to that function in the visitor module
+    import py_gql._utils as _U
+    import py_gql.lang.visitor as _V
+    run.cov["obligations"] += 1
+    run.cov["backends"]["binding identity"] = 1
+    if getattr(_V, "map_and_filter", None) is _U.map_and_filter:
+        run.cov["discharged"] += 1
+    else:
+        # an assumption of the static obligations fails - that is "undecided" for them, not a violation of the property: the bounded part decides
+        run.cov["degraded_functions"].append({"function": "ASTVisitor._visit_* (slot coverage)", "reason": "py_gql.lang.visitor.map_and_filter is no longer "
+                                              "py_gql._utils.map_and_filter: the slot statements are read with that function's contract"})
     return run.finish("other", "trace contracts over every syntactic path of the real function (Engine P, unbounded in the inputs, values abstracted) + bounded stand-in: visitor trace and edit-locality contracts on every document of the enumerated corpus",
                       checker_cmd="./check C18 --tier %s" % tier)
